@@ -227,6 +227,15 @@ def s21_ops(ctx):
                     r.sample({'fn': a['def'], 'op': op, 'class': 'constructor-like: capacity check / range-checked parameter', 'line': line})
                     continue
                 tk = (a['def'], op)
+                if tk not in WIDTH_TABLE:
+                    # the argued computation moved into a helper of the same source file keeps its argument (matched by file and operation)
+                    for (tfn, top), why_ in WIDTH_TABLE.items():
+                        tb_ = fd.generic_body(tfn)
+                        if top == op and tb_ is not None and tb_['file'] == a['file'] and not any(
+                                x['def'] == tfn and any(s_['s'] == 'assign' and s_['rv'].get('r') == 'cast' and ('cast ' + s_['rv']['from']) == op for blk_ in x['blocks'] for s_ in blk_['stmts'])
+                                for x in [tb_]):
+                            tk = (tfn, top)
+                            break
                 if tk in WIDTH_TABLE:
                     used_table.add(tk)
                     r.sample({'fn': a['def'], 'op': op, 'class': 'table', 'argument': WIDTH_TABLE[tk]})
